@@ -33,8 +33,8 @@ def registry():
     reg.add(Contract(S + '_Element.__eq__', params={'other': EL}, returns='self._value == other._value',
                      ensures={'value': 'result == (self._value == other._value)'}, modifies=[], options={'exact': True}))
     reg.add(Contract(S + '_Element.encode', params={}, returns='i2osp(self._value, 16)',
-                     ensures={'value': 'result == i2osp(self._value, 16)'}, modifies=[], options={'exact': True}))
-    reg.add(Contract(S + '_Element.__add__', params={'term': EL}, result=EL, options={'bitops': 'uf'},
+                     ensures={'value': 'result == i2osp(self._value, 16)'}, modifies=[], options={'exact': True, 'i2osp_explicit_max': 0}))
+    reg.add(Contract(S + '_Element.__add__', params={'term': EL}, result=EL, options={'bitops': 'uf', 'i2osp_explicit_max': 0},
                      ensures={'xor': 'result._value == self._value ^ term._value', 'valid': 'valid(result)',
                               'fresh': 'result is not self and result is not term'},
                      modifies=[]))
@@ -47,7 +47,7 @@ def registry():
                      modifies=[], assumed='NOT PROVED deductively; bounded: shamir.field.inverse'))
     reg.add(Contract(S + '_Element.__pow__', params={'exponent': 'int[1..8]'}, result=EL,
                      ensures={'pow': 'result._value == spec.gf128.power(self._value, exponent)', 'valid': 'valid(result)'},
-                     modifies=[], options={'bitops': 'uf'}))
+                     modifies=[], options={'bitops': 'uf', 'i2osp_explicit_max': 0}))
 
     return reg
 
@@ -59,7 +59,7 @@ def split_contract(reg, k, n):
                             ensures={'count': 'len(result) == n',
                                      'indices': 'all(result[i][0] == i + 1 for i in range(n))',
                                      'shares': 'all(result[i][1] == i2osp(spec.shamir.share(%s, i + 1, ssss), 16) for i in range(n))' % coeffs},
-                            modifies=[], raises={}, options={'bitops': 'uf'}))
+                            modifies=[], raises={}, options={'bitops': 'uf', 'i2osp_explicit_max': 0}))
 
 
 def combine_contract(reg, k):
@@ -69,7 +69,7 @@ def combine_contract(reg, k):
     return reg.add(Contract(S + 'Shamir.combine', params={'shares': 'list(%s)' % tup, 'ssss': 'bool'},
                             raises={'ValueError': ('iff', 'not spec.shamir.distinct(%s)' % xs)},
                             ensures={'secret': 'result == i2osp(spec.shamir.combine(%s, %s, ssss), 16)' % (xs, vs)},
-                            modifies=[], options={'bitops': 'uf'}))
+                            modifies=[], options={'bitops': 'uf', 'i2osp_explicit_max': 0}))
 
 
 def _reg_split(k, n):
@@ -138,4 +138,87 @@ def units(prop, tier):
     for k in sorted({k for k, _ in ks}):
         us.append(pyvc_unit(prop, 'shamir.combine.k%d' % k, _reg_combine(k), [S + 'Shamir.combine'], weight=3))
     us.append(lean_unit(prop))
+    us.append(field_bounded_unit(prop, tier))
     return us
+
+
+# ---------------------------------------------------------------- bounded stand-in for the field-level contracts
+def field_bounded_unit(prop, tier):
+    """run-time contract check of _mult_gf2 / _div_gf2 / _Element.__mul__ / inverse against an independent GF(2)[x] reference
+    (carry-less product and polynomial remainder written from the definition).  Labelled bounded; never counted as proved."""
+    import os
+    import time
+    from vf.core import Unit
+
+    def clmul(a, b):
+        r = 0
+        i = 0
+        while b >> i:
+            if (b >> i) & 1:
+                r ^= a << i
+            i += 1
+        return r
+
+    def pdivmod(a, b):
+        q = 0
+        db = b.bit_length()
+        while a.bit_length() >= db:
+            s = a.bit_length() - db
+            q ^= 1 << s
+            a ^= b << s
+        return q, a
+
+    def run():
+        import random
+        from Crypto.Protocol import SecretSharing as SS
+        P = 1 + 2 + 4 + 128 + 2 ** 128
+        rnd = random.Random(int(os.environ.get('VERIF_SEED', '0') or 0))
+        t0 = time.time()
+        n_rand = 400 if tier == 'quick' else 5000
+        small = list(range(0, 64))
+        edge = [0, 1, 2, 3, 2 ** 127, 2 ** 128 - 1, 2 ** 127 + 1, P - 2 ** 128, 0x87, 2 ** 64, 2 ** 64 - 1]
+        vals = small + edge + [rnd.getrandbits(128) for _ in range(n_rand // 10)]
+        fails = {'mult_gf2': None, 'div_gf2': None, 'mul': None, 'inverse': None, 'irr_poly': None}
+        ev = 0
+        if SS._Element.irr_poly != P:
+            fails['irr_poly'] = {'irr_poly': SS._Element.irr_poly}
+        pairs = [(a, b) for a in small for b in small] + [(rnd.choice(vals), rnd.choice(vals)) for _ in range(n_rand)] + \
+                [(a, b) for a in edge for b in edge]
+        for a, b in pairs:
+            ev += 1
+            if SS._mult_gf2(a, b) != clmul(a, b) and not fails['mult_gf2']:
+                fails['mult_gf2'] = {'f1': a, 'f2': b}
+            if b:
+                q, r = SS._div_gf2(a, b)
+                if (q, r) != pdivmod(a, b) and not fails['div_gf2']:
+                    fails['div_gf2'] = {'a': a, 'b': b}
+            got = int(SS._Element(a) * SS._Element(b))
+            if got != pdivmod(clmul(a, b), P)[1] and not fails['mul']:
+                fails['mul'] = {'a': a, 'b': b, 'got': got}
+        for a in vals:
+            ev += 1
+            if a == 0:
+                try:
+                    SS._Element(0).inverse()
+                    fails['inverse'] = fails['inverse'] or {'a': 0, 'got': 'no exception'}
+                except ValueError:
+                    pass
+                continue
+            inv = int(SS._Element(a).inverse())
+            if not (0 <= inv < 2 ** 128 and pdivmod(clmul(a, inv), P)[1] == 1) and not fails['inverse']:
+                fails['inverse'] = {'a': a, 'got': inv}
+        res = []
+        for k, w in fails.items():
+            res.append({'id': '%s.bounded.shamir.field.%s' % (prop, k), 'kind': 'bounded',
+                        'clause': {'mult_gf2': '_mult_gf2(f1, f2) == carry-less product', 'div_gf2': '_div_gf2(a, b) == polynomial quotient and remainder',
+                                   'mul': 'int(_Element(a) * _Element(b)) == (a (x) b) mod P', 'inverse': '(a (x) a.inverse()) mod P == 1; zero raises ValueError',
+                                   'irr_poly': '_Element.irr_poly == x^128 + x^7 + x^2 + x + 1'}[k],
+                        'status': 'bounded_fail' if w else 'bounded_ok', 'backend': 'cpython', 'seconds': 0.0, 'detail': '',
+                        'witness': {kk: str(vv) for kk, vv in w.items()} if w else None, 'replayed': bool(w), 'witness_class': k if w else None})
+        return {'results': res, 'functions': [{'target': 'Crypto.Protocol.SecretSharing.' + f, 'engine': 'BOUNDED', 'status': 'bounded'}
+                                              for f in ('_mult_gf2', '_div_gf2', '_Element.__mul__', '_Element.inverse')],
+                'bounded': [{'name': 'shamir.field', 'bound': 'all operand pairs < 64, 11 edge values pairwise, %d random 128-bit pairs; inverse of every value in that set' % n_rand,
+                             'evaluations': ev, 'distinct': ev, 'samples': [{'a': '3', 'b': '5', 'clmul': str(clmul(3, 5))}]}],
+                'assumptions': ['_Element.__mul__ == field multiplication and inverse() == field inverse are NOT proved deductively (bounded only)'],
+                'seconds': time.time() - t0}
+    return Unit('shamir.field.bounded', run, 'bounded')
